@@ -64,15 +64,6 @@ def run(ctx):
         if unreached:
             raise tlc.MachineryError("vacuity witnesses not reachable: %s" % unreached)
     ctx.note("vacuity_witnesses_reached", len(WITNESSES))
-    # termination: every behaviour finishes all calls (fair scheduling of the enabled steps)
-    lcfg = tlc.write_cfg(os.path.join(ctx.scratch, "live.cfg"), spec="FairSpec", constants={"N": 2, "K": 2, "M": 1},
-                         properties=["Terminates"], deadlock=False)
-    lres = tlc.check_model("Timestamps", lcfg, ctx.scratch, timeout=900, workers=4)
-    ctx.add_tlc(lres, "liveness N=2 K=2 M=1")
-    if lres.violation:
-        ctx.violation("TLC: Terminates violated on Timestamps.tla", replay={}, signature="spec:Terminates")
-        return
-
     # ---- spec -> code: every edge of the state graph of small instances
     small = [{"N": 2, "K": 2, "M": 2}, {"N": 3, "K": 1, "M": 2}] if ctx.quick else \
             [{"N": 2, "K": 2, "M": 3}, {"N": 3, "K": 1, "M": 3}, {"N": 3, "K": 2, "M": 1}]
@@ -81,8 +72,14 @@ def run(ctx):
     seen = set()
     first_walk = None
     for consts in small:
-        res, nodes, edges, init = tlc.state_graph("Timestamps", cfg_for(ctx, "ts_small", consts), ctx.scratch, timeout=900)
-        ctx.add_tlc(res, "graph %s" % consts)
+        # the same run checks termination (<>[]Finished under weak fairness of Next)
+        res, nodes, edges, init = tlc.state_graph("Timestamps", cfg_for(ctx, "ts_small", consts, spec="FairSpec",
+                                                                        properties=["Terminates"]), ctx.scratch, timeout=900)
+        ctx.add_tlc(res, "graph + termination %s" % consts)
+        if res.violation:
+            ctx.violation("TLC: %s violated on Timestamps.tla" % res.invariant, replay={"constants": consts},
+                          signature="spec:%s" % res.invariant)
+            return
         walks = covering_walks(edges, init)
         covered = set()
         for w in walks:
